@@ -4,6 +4,7 @@ import ast
 
 from ..core import AnalysisError, unparse, where
 from ..cfg import forward, _walk_no_nested
+from ..normal import normalise
 from ..seq import (gen_cfg, yields_of, check_rdisc, _is_attr_chain,
                    rdisc_facts_transfer)
 
@@ -57,6 +58,16 @@ def bytes_defs(cfg, param):
             o = _to_bytes_call(n.ast.value, param)
             if o is not None:
                 out[n.ast.targets[0].id] = (o, n)
+        elif n.kind == "stmt" and isinstance(n.ast, ast.Assign) and len(
+                n.ast.targets) == 1 and isinstance(
+                    n.ast.targets[0], ast.Tuple) and len(
+                        n.ast.targets[0].elts) == 2 and all(isinstance(
+                            x, ast.Name) for x in n.ast.targets[0].elts):
+            o = _to_bytes_call(n.ast.value, param)
+            if o is not None:
+                # a, b = p.to_bytes(2, order): a is byte 0, b is byte 1
+                for i, x in enumerate(n.ast.targets[0].elts):
+                    out[x.id] = (o, n, i)
     return out
 
 
@@ -84,6 +95,9 @@ def byte_lane(e, param, bdefs):
     """Which byte of `param` does expression e denote?  0 = low, 1 = high,
     None = unrecognised.  Mask forms are exact only for 0 <= param < 65536;
     the caller checks the range guard for those (returns (lane, needs_guard))."""
+    if isinstance(e, ast.Name) and e.id in bdefs and len(bdefs[e.id]) == 3:
+        order, _n, idx = bdefs[e.id]
+        return (idx if order == "little" else 1 - idx, False)
     if isinstance(e, ast.Subscript) and isinstance(e.slice, ast.Constant) \
             and e.slice.value in (0, 1, -1, -2):
         idx = e.slice.value % 2
@@ -228,6 +242,7 @@ def check(run, repo, world):
     }
     for fname, sp in specs.items():
         m, fn, _ = world.func(MOD + "." + fname)
+        fn = normalise(fn, world, MOD)
         F = MOD + "." + fname
         cfg = gen_cfg(fn, F)
         ys = yields_of(cfg, world, MOD)
@@ -289,8 +304,9 @@ def check(run, repo, world):
                  "precedes the first yield")
         firsts = _first_yield_ids(cfg, ys)
         after = _reachable_ids([n for n in cfg.reachable if n.id in firsts])
-        tb_before = [b for (name, (o, n)) in bdefs.items()
-                     for b in [n] if n.id not in after and n.id not in firsts]
+        tb_before = [b for (name, tup) in bdefs.items()
+                     for b in [tup[1]] if tup[1].id not in after and
+                     tup[1].id not in firsts]
         inline_tb = False
         if not tb_before:
             # to_bytes used inline in the first yield is still "before
@@ -308,8 +324,42 @@ def check(run, repo, world):
                "no operation rejecting %s outside 0..65535 before the first "
                "command is sent" % p, where(mod, fn))
 
+    # ---- selector enumerations vs IEC 62386-209 ---------------------------
+    import json
+    import os
+    from ..core import VERIF
+    from ..fold import Folder, EnumMember
+    run.rule("R-DT8-ENUM", "DTR selector enumerations == IEC 62386-209 "
+             "tables (name by name, both directions)")
+    spec = json.load(open(os.path.join(VERIF, "spec", "dt8_enums.json")))
+    folder = Folder(world)
+    for qn, want in spec.items():
+        if qn.startswith("_"):
+            continue
+        c = world.cls(qn)
+        got = {}
+        for name in list(c.attrs):
+            if not isinstance(name, str) or name.startswith("_"):
+                continue
+            v = folder.class_attr(c, name)
+            if isinstance(v, EnumMember):
+                v = v.value
+            if isinstance(v, int):
+                got[name] = v
+        diff = {k: (got.get(k), want.get(k)) for k in set(got) | set(want)
+                if got.get(k) != want.get(k)}
+        run.ob("R-DT8-ENUM", qn, not diff,
+               "selector values differ from the standard's table "
+               "(library, standard): %s" % diff, where(
+                   repo.mod(c.mod), c.node),
+               sample={"rule": "R-DT8-ENUM", "enum": qn, "members":
+                       len(got)})
+        run.floor("members of %s" % qn.split(".")[-1], len(got),
+                  len(want) - 2)
+
     # ---- QueryDT8ColourValue ----------------------------------------------
     m, fn, _ = world.func(MOD + ".QueryDT8ColourValue")
+    fn = normalise(fn, world, MOD)
     F = MOD + ".QueryDT8ColourValue"
     cfg = gen_cfg(fn, F)
     ys = yields_of(cfg, world, MOD)
@@ -477,6 +527,14 @@ def _find_assembly(cfg, msb, lsb):
         found = None
         for c in _walk_no_nested(v):
             # int.from_bytes((a, b), order)
+            if isinstance(c, ast.Call) and unparse(c.func) == \
+                    "int.from_bytes" and c.args and isinstance(
+                        c.args[0], ast.Call) and unparse(
+                            c.args[0].func) in ("bytes", "bytearray") and \
+                    len(c.args[0].args) == 1 and isinstance(
+                        c.args[0].args[0], (ast.Tuple, ast.List)):
+                c = ast.Call(c.func, [c.args[0].args[0]] + list(c.args[1:]),
+                             c.keywords)
             if isinstance(c, ast.Call) and unparse(c.func) == \
                     "int.from_bytes" and c.args and isinstance(
                         c.args[0], (ast.Tuple, ast.List)) and len(
